@@ -23,7 +23,8 @@ for w in $(seq 0 $((W-1))); do
     cd /verif
     while read n; do
       prop=\$(python3 -c \"import json;print(json.load(open('seeded/\$n/meta.json'))['property'])\")
-      out=\$(tools/try_seed.sh /verif/seeded/\$n/patch.diff \$prop 2>&1 | grep -v '^KNOWN' | tr '\n' ' ' | cut -c1-220)
+      patch=/verif/seeded/\$n/patch.diff; [ -f /verif/seeded/\$n/patch_rebased.diff ] && patch=/verif/seeded/\$n/patch_rebased.diff
+      out=\$(tools/try_seed.sh \$patch \$prop 2>&1 | grep -v '^KNOWN' | tr '\n' ' ' | cut -c1-220)
       echo \"\$n \$prop :: \$out\"
     done < $base/$w/list
   " > $base/$w/log 2>&1 &
